@@ -99,7 +99,7 @@ def iter_many(lib, cases, fn=run_case, variant=None, timeout=20, procs=None, chu
         pool.join()
 
 
-def p21read(lib, text, strict=False, timeout=30):
+def p21read(lib, text, strict=False, timeout=30, opts=None, with_out=True):
     """Run the reference tool built for this library; returns (exit, output bytes, combined log)."""
     d = drv.scratch_dir('p21read')
     try:
@@ -108,7 +108,7 @@ def p21read(lib, text, strict=False, timeout=30):
         with open(fin, 'wb') as f:
             f.write(text if isinstance(text, bytes) else text.encode('latin1'))
         env = dict(common.ASAN_ENV)
-        cmd = [lib.p21read] + (['-s'] if strict else []) + [fin, fout]
+        cmd = [lib.p21read] + (list(opts) if opts is not None else (['-s'] if strict else [])) + [fin] + ([fout] if with_out else [])
         rc, out, _ = common.run(cmd, timeout=timeout, env=env, cwd=d, merge=True)
         data = open(fout, 'rb').read() if os.path.exists(fout) else None
         return rc, data, out
